@@ -22,7 +22,8 @@ def run_real(ctx, slow=False):
         slow_s = "1" if (slow and 4 <= i < (8 if q else 12)) else "0"
         count = (40 if silent == "1" else ((5 if q else 60) if slow_s == "1" else (400 if q else 6000))) * n
         # one long life of a single poller on one shard: 3700 polls (the hour mark and beyond), the PHC attribute unreadable for 340 of them
-        long_s = "3700" if i == n - 1 else "0"
+        # (silence right after exactly 3600 / 3601 / 7200 answered polls: the hour marks of a poll counter)
+        long_s = {n - 1: "3600", n - 2: "3601", n - 3: "7200"}.get(i, "0") if (i >= n - 2 or not q) else "0"
         jobs.append(sandbox.wrap([b, "c13real", "--seed", str(ctx.seed * 1000 + 13), "--count", str(count), "--shard", "%d/%d" % (i, n), "--out", o, "--replays", ctx.replay_dir, "--silent", silent, "--slow", slow_s, "--long", long_s]))
     res = ctx.run_parallel(jobs, 1500)
     agg = {"evaluations": 0, "distinct": 0, "steps": 0, "coarse_reads": 0, "phc_read_failures_injected": 0, "kinds": {}, "threshold_edges": {}, "violations": [], "samples": []}
